@@ -89,6 +89,55 @@ theorem toNat_wrapU32 (c : Nat) (hc : c < 2 ^ 32) : (wrapU 32 (c : Int)).toNat =
   have := wrapU32_natCast c hc
   rw [this]; simp
 
+theorem byValueTyped_some {t : JTy} {n : Option Nat} {code : Nat} (h : t.byValueTyped = some (n, code)) :
+    ∃ key0, t = .typedBytes false n code key0 := by
+  cases t <;> simp [JTy.byValueTyped] at h
+  rename_i viaPtr n' code' key0
+  cases viaPtr <;> simp at h
+  obtain ⟨rfl, rfl⟩ := h
+  exact ⟨key0, rfl⟩
+
+/-- typed byte arrays / typed `[]byte` (a leaf): the object written under `key` is read back, whatever
+key (`key0`) the type itself is registered with. -/
+theorem rt_typedBytes (viaPtr : Bool) (n : Option Nat) (code : Nat) (key key0 : String) (v : Val) (j : Json)
+    (hp : viaPtr = false ∨ n.isSome = true) (hkey : ¬ key = "type")
+    (hv : valOk fc (.typedBytes viaPtr n code key0) v = true)
+    (h : encTypedBytes viaPtr n code key v = .ok j) :
+    decTypedBytes n key j = .ok v ∧ TypeMemberOf code j := by
+  have hk : key ∉ keys [("type", Json.num (code : Int))] := by
+    simp only [keys, List.map_cons, List.map_nil, List.mem_singleton]
+    exact hkey
+  have hl : ∀ x, jlookup key [("type", Json.num (code : Int)), (key, x)] = some x := by
+    intro x
+    simp only [jlookup]
+    rw [if_neg (fun e => hkey e.symm)]
+    simp
+  cases v with
+  | bytes bs =>
+    cases n with
+    | none =>
+      cases viaPtr with
+      | true => simp at hp
+      | false =>
+        simp only [encTypedBytes, Option.all_none, objSet_of_not_mem _ hk] at h
+        simp only [Bool.false_eq_true, and_false, if_false, if_true, Except.ok.injEq] at h
+        subst h
+        exact ⟨by simp [decTypedBytes, asObj, hl, ofOpt, asStr, decodeHex_encodeHex],
+          _, rfl, by simp [jlookup]⟩
+    | some n =>
+      have hlen : bs.length = n := by cases viaPtr <;> simpa [valOk] using hv
+      simp only [encTypedBytes, Option.all_some, hlen, decide_true, if_true,
+        objSet_of_not_mem _ hk] at h
+      simp only [reduceCtorEq, false_and, if_false, Except.ok.injEq] at h
+      subst h
+      exact ⟨by simp [decTypedBytes, asObj, hl, ofOpt, asStr, decodeHex_encodeHex, fit_eq hlen],
+        _, rfl, by simp [jlookup]⟩
+  | nil =>
+    cases viaPtr with
+    | true => simp [encTypedBytes] at h
+    | false => cases n <;> simp [valOk] at hv
+  | _ => cases viaPtr <;> cases n <;> simp [valOk] at hv
+
 mutual
 theorem rt_ty : ∀ (t : JTy) (v : Val) (j : Json), expressible t = true → valOk fc t v = true →
     mapEncode fc o t v = .ok j →
@@ -161,45 +210,28 @@ theorem rt_ty : ∀ (t : JTy) (v : Val) (j : Json), expressible t = true → val
     simp only [pure_eq_ok, Except.ok.injEq] at h
     subst h
     simp [mapDecode, asStr, decodeHex_encodeHex, ofOpt, checkLen_ok_unit hu]
-  | .byteArr viaPtr n, v, j, hx, hv, h => by
-    cases viaPtr
-    · cases v <;> simp only [valOk, Bool.false_eq_true] at hv
-      rename_i bs
+  | .byteArr viaPtr n, v, j, _, hv, h => by
+    cases v with
+    | bytes bs =>
+      simp only [valOk, decide_eq_true_eq] at hv
       refine ⟨?_, by simp [altShape]⟩
-      simp only [decide_eq_true_eq] at hv
       simp only [mapEncode, hv, if_true, Except.ok.injEq] at h
       subst h
       simp [mapDecode, asStr, decodeHex_encodeHex, ofOpt, fit_eq hv]
-    · simp [expressible] at hx
+    | nil => cases viaPtr <;> simp [mapEncode] at h
+    | _ => exact absurd hv (by cases viaPtr <;> simp [valOk])
   | .typedBytes viaPtr n code key, v, j, hx, hv, h => by
-    simp only [expressible, Bool.and_eq_true, bne_iff_ne, ne_eq] at hx
-    obtain ⟨⟨hp, hn⟩, hkey⟩ := hx
-    subst hp
-    cases n with
-    | none => simp at hn
-    | some n =>
-      cases v <;> simp only [valOk, Bool.false_eq_true] at hv
-      · simp [mapEncode, encTypedBytes] at h
-      · rename_i bs
-        simp only [decide_eq_true_eq] at hv
-        have hk : key ∉ keys [("type", Json.num (code : Int))] := by
-          simp only [keys, List.map_cons, List.map_nil, List.mem_singleton]
-          exact hkey
-        simp only [mapEncode, encTypedBytes, Option.all_some, hv, decide_true, if_true,
-          objSet_of_not_mem _ hk] at h
-        simp only [reduceCtorEq, false_and, if_false, Except.ok.injEq] at h
-        subst h
-        constructor
-        · have hl : jlookup key [("type", Json.num (code : Int)), (key, Json.str (encodeHex bs))]
-              = some (Json.str (encodeHex bs)) := by
-            simp only [jlookup]
-            rw [if_neg (fun e => hkey e.symm)]
-            simp
-          simp [mapDecode, asObj, hl, ofOpt, asStr, decodeHex_encodeHex, fit_eq hv]
-        · intro c hc
-          simp only [altShape, decide_eq_true_eq] at hc
-          subst hc
-          exact ⟨_, rfl, by simp [jlookup]⟩
+    simp only [expressible, Bool.and_eq_true, bne_iff_ne, ne_eq, Bool.or_eq_true,
+      Bool.not_eq_eq_eq_not, Bool.not_true] at hx
+    obtain ⟨hp, hkey⟩ := hx
+    simp only [mapEncode] at h
+    obtain ⟨hd, hs⟩ := rt_typedBytes fc viaPtr n code key key v j hp hkey hv h
+    refine ⟨?_, ?_⟩
+    · cases viaPtr <;> cases n <;> first | exact (by simpa [mapDecode] using hd) | simp at hp
+    · intro c hc
+      simp only [altShape, decide_eq_true_eq] at hc
+      subst hc
+      exact hs
   | .u256, v, j, _, hv, h => by
     cases v <;> simp only [valOk, Bool.false_eq_true] at hv
     · simp [mapEncode] at h
@@ -331,7 +363,7 @@ theorem rt_fields : ∀ (fs : Fields) (vs : List Val) (acc ms : List (String × 
     | cons v vs =>
       simp only [fieldsExpressible, Bool.and_eq_true, Bool.or_eq_true, Bool.not_eq_eq_eq_not,
         Bool.not_true] at hx
-      obtain ⟨⟨hopt, htx⟩, hrx⟩ := hx
+      obtain ⟨⟨⟨hopt, hfk⟩, htx⟩, hrx⟩ := hx
       simp only [valsOk, Bool.and_eq_true] at hv
       simp only [allKeys, List.nodup_cons] at hnd
       have hacc' : ∀ k ∈ allKeys rest, k ∉ keys acc := fun k hk => hacc k (List.mem_cons_of_mem _ hk)
@@ -366,13 +398,8 @@ theorem rt_fields : ∀ (fs : Fields) (vs : List Val) (acc ms : List (String × 
           have hmiss : missingVal t = .nil := missingVal_of_nilable t hnil
           exact skipped h (by rw [hvn, hmiss]) (by simp [h2.1])
         · simp only [h2, Bool.false_eq_true, if_false] at h
-          have h' : (do let j ← mapEncode fc o t v; encFields fc o rest vs (objSet acc key j)) = .ok ms := by
-            cases t <;> try exact h
-            rename_i viaPtr n code key'
-            cases viaPtr
-            · simp [expressible] at htx
-            · exact h
-          obtain ⟨j, hj, h⟩ := bind_eq_ok.mp h'
+          -- the field's own encoder / decoder pair (a typed byte array by value uses the field's key)
+          obtain ⟨j, hj, h⟩ := bind_eq_ok.mp h
           have hk : key ∉ keys acc := hacc key List.mem_cons_self
           rw [objSet_of_not_mem j hk] at h
           obtain ⟨new, rfl, hsub, hnn, hdec⟩ := rt_fields rest vs (acc ++ [(key, j)]) ms hrx hv.2 hnd.2
@@ -401,8 +428,19 @@ theorem rt_fields : ∀ (fs : Fields) (vs : List Val) (acc ms : List (String × 
               rw [if_neg]
               rintro rfl
               exact hnd.1 hk')
-            have hd := (rt_ty t v j htx hv.1 hj).1
-            simp [decFields, hl, hd, hr]
+            simp only [decFields, hl]
+            cases hbt : t.byValueTyped with
+            | none =>
+              rw [hbt] at hj
+              have hd := (rt_ty t v j htx hv.1 hj).1
+              simp [hd, hr]
+            | some nc =>
+              obtain ⟨n, code⟩ := nc
+              obtain ⟨key0, rfl⟩ := byValueTyped_some hbt
+              rw [hbt] at hj
+              simp only [fieldKeyOk, hbt, bne_iff_ne, ne_eq] at hfk
+              have hd := (rt_typedBytes fc false n code key key0 v j (Or.inl rfl) hfk hv.1 hj).1
+              simp [hd, hr]
   | .embedded viaPtr fs rest, vs, acc, ms, hx, hv, hnd, hacc, h => by
     simp only [fieldsExpressible, Bool.and_eq_true] at hx
     simp only [allKeys] at hnd hacc
